@@ -1,5 +1,10 @@
 //! C17: grammar analyses of cfgrammar observed through the public API.
-//! case:   `<kind> <hexsrc> ; <tokname>=<cost> <tokname>=<cost> …`   (unlisted tokens cost 1)
+//! case:   `<kind> <hexsrc> [ord=<n>] ; <tokname>=<cost> <tokname>=<cost> …`   (unlisted tokens cost 1)
+//!         ord=0 / absent: every group of cost queries on its OWN fresh generator (min; min_sentence(s); max);
+//!         ord=1..7: ALL queries on ONE generator in one thread, in the order of `order_steps` (the caches of a
+//!         SentenceGenerator are filled by its first queries: the answers must not depend on the order);
+//!         the same sections are printed in query order, a repeated query prints its section again
+//!         (the reader checks that repeated sections agree); ` # ORD n` is appended.
 //! args:   `nocost` (skip every sentence_generator query), `nomss` (skip min_sentences),
 //!         `noms` (skip min_sentence and min_sentences)
 //! result: `<grammar dump> # NUL r… # FI r tok… # FO r tok… # HP a b … # COST t c …`
@@ -20,6 +25,96 @@ use std::sync::mpsc;
 use std::time::Duration;
 
 static POISONED: AtomicBool = AtomicBool::new(false);
+
+/// the steps of a query order on one generator: m = min_sentence_cost, s = min_sentence, S = min_sentences,
+/// x = max_sentence_cost (each for every rule); i = min, max, min_sentence interleaved per rule, twice per rule
+fn order_steps(ord: u32) -> &'static str {
+    match ord {
+        1 => "xmsS",       // max first
+        2 => "mxsS",       // min, then max
+        3 => "sxmS",       // min_sentence, then max
+        4 => "Sxms",       // min_sentences, then max, then min
+        5 => "mmxxssSSxm", // every query twice
+        6 => "ixSm",       // per rule: min max min_sentence min max min_sentence
+        7 => "xSsmx",      // max first and last
+        _ => "",
+    }
+}
+
+fn one_generator(
+    grm: &YaccGrammar<u32>,
+    costs: &[u8],
+    steps: &str,
+    noms: bool,
+    nomss: bool,
+    progress: &std::sync::Mutex<(String, char)>,
+) {
+    let costs = costs.to_vec();
+    let sg = grm.sentence_generator(move |t: TIdx<u32>| costs[usize::from(t)]);
+    let maxs = |o: &mut String, r: RIdx<u32>| match sg.max_sentence_cost(r) {
+        Some(c) => write!(o, " # MAX {} {}", usize::from(r), c).unwrap(),
+        None => write!(o, " # MAX {} inf", usize::from(r)).unwrap(),
+    };
+    let mins = |o: &mut String, r: RIdx<u32>| write!(o, " # MIN {} {}", usize::from(r), sg.min_sentence_cost(r)).unwrap();
+    let ms = |o: &mut String, r: RIdx<u32>| {
+        write!(o, " # MS {}", usize::from(r)).unwrap();
+        for t in sg.min_sentence(r) {
+            write!(o, " {}", usize::from(t)).unwrap();
+        }
+    };
+    for step in steps.chars() {
+        if (step == 's' && noms) || (step == 'S' && nomss) {
+            continue;
+        }
+        progress.lock().unwrap().1 = step;
+        let r = catch(std::panic::AssertUnwindSafe(|| {
+            let mut o = String::new();
+            for r in grm.iter_rules() {
+                match step {
+                    'm' => mins(&mut o, r),
+                    'x' => maxs(&mut o, r),
+                    's' => ms(&mut o, r),
+                    'i' => {
+                        for _ in 0..2 {
+                            mins(&mut o, r);
+                            maxs(&mut o, r);
+                            if !noms {
+                                ms(&mut o, r);
+                            }
+                        }
+                    }
+                    _ => {
+                        let ss = sg.min_sentences(r);
+                        if ss.len() > 400 {
+                            write!(o, " # MSSBIG {} {}", usize::from(r), ss.len()).unwrap();
+                            continue;
+                        }
+                        write!(o, " # MSS {}", usize::from(r)).unwrap();
+                        for s in ss {
+                            write!(o, " ;").unwrap();
+                            for t in s {
+                                write!(o, " {}", usize::from(t)).unwrap();
+                            }
+                        }
+                    }
+                }
+            }
+            o
+        }));
+        let mut p = progress.lock().unwrap();
+        match r {
+            Ok(s) => p.0.push_str(&s),
+            Err(m) => {
+                let k = match step {
+                    'm' | 'i' => "MIN",
+                    'x' => "MAX",
+                    _ => "MS",
+                };
+                write!(p.0, " # {}PANIC {}", k, clean(&m)).unwrap()
+            }
+        }
+    }
+}
 
 fn grammar(kind: &str, src: &str) -> Result<YaccGrammar<u32>, String> {
     YaccGrammar::<u32>::new_with_storaget(yacckind(kind), src).map_err(|e| {
@@ -76,6 +171,7 @@ fn main() {
         let mut hs = head.split_whitespace();
         let kind = hs.next().unwrap().to_string();
         let src = unhex(hs.next().unwrap_or(""));
+        let ord: u32 = hs.next().and_then(|x| x.strip_prefix("ord=")).and_then(|x| x.parse().ok()).unwrap_or(0);
         let grm = match catch(std::panic::AssertUnwindSafe(|| grammar(&kind, &src))) {
             Err(m) => return format!("BUILDPANIC {}", clean(&m)),
             Ok(Err(e)) => return e,
@@ -155,7 +251,38 @@ fn main() {
         if nocost {
             return o;
         }
-        // ---- sentence generator ----
+        // ---- sentence generator: one generator, queries in the order `ord` ----
+        if !order_steps(ord).is_empty() {
+            let progress = std::sync::Arc::new(std::sync::Mutex::new((String::new(), ' ')));
+            let p2 = progress.clone();
+            let steps = order_steps(ord);
+            // the whole sequence gets the time of the three separate groups
+            let r = timed(&kind, &src, &costs, 3 * ms, move |grm, costs| {
+                one_generator(grm, costs, steps, noms, nomss, &p2);
+                String::new()
+            });
+            let p = progress.lock().unwrap();
+            o.push_str(&p.0);
+            write!(o, " # ORD {}", ord).unwrap();
+            match r {
+                Some(Ok(_)) => return o,
+                Some(Err(m)) => {
+                    write!(o, " # MINPANIC outside the queries: {}", clean(&m)).unwrap();
+                    return o;
+                }
+                None => {
+                    let k = match p.1 {
+                        'm' | 'i' | ' ' => "MIN",
+                        'x' => "MAX",
+                        _ => "MS",
+                    };
+                    write!(o, " # {}HANG", k).unwrap();
+                    POISONED.store(true, Ordering::SeqCst);
+                    return format!("HANGCOST # {}", o);
+                }
+            }
+        }
+        // ---- sentence generator: every group of queries on its own generator ----
         let mut hung = false;
         let mut min_ok = false;
         match timed(&kind, &src, &costs, ms, |grm, costs| {
